@@ -19,6 +19,10 @@ def gen_stack(rng, tier):
     for _ in range(reps):
         for what in ("close", "connectfail", "bindclose", "none"):
             cases.append(["bystander %s %s %d" % (rng.choice(["tcp", "tcp", "ipc"]), what, rng.choice([100, 200, 400]))])
+    # retries never come faster than RECONNECT_IVL, however busy the rest of the context is
+    for _ in range(reps):
+        cases.append(["!retrypace %d 1 %d" % (rng.choice([150, 300]), 1500)])
+        cases.append(["retrypace %d 0 %d" % (rng.choice([150, 300]), 1500)])
     return cases
 
 
@@ -26,12 +30,14 @@ SPEC = {
     "components": [{"comp": "routing", "gen": gen, "oracle": R.backoff_oracle, "label": "backoff",
                     "nontrivial": lambda c, i: len(set(i)) > 1, "dist": lambda cs: {"cases": len(cs)}},
                    {"comp": "stack", "gen": gen_stack, "label": "stack-faultlocal",
-                    "nontrivial": lambda c, i: any("healthy" in l or l == "bystander=ok" for l in i), "dist": lambda cs: {"cases": len(cs)}}],
+                    "nontrivial": lambda c, i: any("healthy" in l or l in ("bystander=ok", "retrypace=ok") for l in i), "dist": lambda cs: {"cases": len(cs)}}],
     "search": lambda rng, tier: [("routing", gen(rng, tier), R.backoff_oracle), ("stack", gen_stack(rng, "quick"), None, False)],
     "rule": "stack: a healthy PUSH->PULL pair exchanges traffic before and after a fault injected on ANOTHER connection of the same PULL "
             "socket (wrong socket type over inproc/tcp/ipc, garbage bytes, reset, half a greeting then silence, valid handshake then "
             "an oversized frame header); a PUSH whose connecter is in its back-off (peer not up yet) while another socket of the context "
-            "is closed / fails to connect / binds and closes: once the peer comes up the PUSH reaches it; ReconnectState::on_connection_failure for (RECONNECT_IVL, RECONNECT_IVL_MAX, attempt) triples incl. 0, 2^31-1 ms, attempts "
+            "is closed / fails to connect / binds and closes: once the peer comes up the PUSH reaches it; the number of retries reported "
+            "by the monitor over 1.5 s against a dead port, with and without other sockets of the context being created and closed all "
+            "the time, never exceeds what RECONNECT_IVL allows; ReconnectState::on_connection_failure for (RECONNECT_IVL, RECONNECT_IVL_MAX, attempt) triples incl. 0, 2^31-1 ms, attempts "
             "0..33, 64, u32::MAX; oracle = start/at-most-doubling/cap/monotone; non-trivial = the schedule is not constant",
     "assumptions": ["failure locality and the connecter actor's own schedule are separate obligations (DESIGN §8 C17)"],
 }
